@@ -28,14 +28,14 @@ ASSUMPTIONS = [
 REQUIRED_CLASSES = ["k-divides-size", "no-final-newline", "gzip", "crlf", "lazy", "eager", "k-lt-size", "via-path", "max-chunk-size-given",
                     "max-chunk-size-never-reached", "chunks-then-read-gzip"]
 BOUNDS = {
-    "quick": "core: widths {1,2}, up to 3 records, all 10 formats, all k in 1..size+2, all 16 flag combinations (every 4th case from each of 4 offsets = complete), plus a 1-in-8 stride sample of the same core with widths {1,5}; 40 sampled files for each of 16 formats",
-    "thorough": "core: widths {1,2,5}, up to 4 records, all 10 formats, all k, all 16 flag combinations; 500 sampled files for each of 16 formats",
+    "quick": "core: widths {1,2}, up to 3 records, all 10 formats, all k in 1..size+2, all 16 flag combinations (every 4th case from each of 4 offsets = complete), plus a 1-in-8 stride sample of the same core with widths {1,5}; 40 sampled files for each of 17 formats",
+    "thorough": "core: widths {1,2,5}, up to 4 records, all 10 formats, all k, all 16 flag combinations; 500 sampled files for each of 17 formats",
 }
 BUDGET_S = {"quick": 300, "thorough": 1500}
 
 FMTS = ["fasta2", "fastaml", "fastq", "bed3", "bed6", "bdg", "narrowpeak", "vcf", "sam", "gtf"]
 # formats that take part in the sampled remainder only
-SAMPLED_ONLY = ["bed12", "gff", "gfa", "pairs", "wig", "chromsizes"]
+SAMPLED_ONLY = ["bed12", "gff", "gfa", "pairs", "wig", "chromsizes", "vcf-typed"]
 
 
 # ---------------------------------------------------------------------------------------
@@ -251,7 +251,13 @@ def task_core(stats, known_open, fmt, widths, max_records, stride=1, offset=0):
 
 @st.composite
 def sampled_case(draw, fmt, max_records, W):
-    case = draw(S.file_case(fmt, min_records=2, max_records=max_records, W=W, canonical=True))
+    if fmt == "vcf-typed":
+        # a VCF whose header declares typed INFO keys (of different lengths): the INFO column is looked up key by key in every chunk
+        case = draw(S.vcf_case("vcf", max_records, typed=True))
+        if len(case["records"]) < 2:
+            case["records"] = case["records"] * 2
+    else:
+        case = draw(S.file_case(fmt, min_records=2, max_records=max_records, W=W, canonical=True))
     data = formats.serialize(case)
     size = len(data)
     rec_sizes = [len(formats.record_bytes(case, r)) for r in case["records"]]
